@@ -58,7 +58,7 @@ def check(model: Model, run: Run) -> None:
         'the two announce indexes stay coherent: a function that stores into or removes from _new_nlri[route index] also '
         'removes what the PREVIOUS occupant of that index holds in _new_attr_af_nlri, keyed by the previous route\'s own '
         'attribute index (looked up through _new_nlri), not by the attributes of the incoming operation',
-        floor=2,
+        floor=1,
     )
     writers = []
     for fi in model.funcs.values():
@@ -220,7 +220,7 @@ def check(model: Model, run: Run) -> None:
         return '?'
 
     groups = [(y, group(y)) for y in yields]
-    run.rule('C04.R3', 'updates() emits refresh, then withdraws, then announces: no yield of an earlier group is reachable after a yield of a later group', floor=3)
+    run.rule('C04.R3', 'updates() emits refresh, then withdraws, then announces: no yield of an earlier group is reachable after a yield of a later group', floor=1)
     order = {'refresh': 0, 'withdraw': 1, 'announce': 2}
     unknown = [y for y, g in groups if g == '?']
     if unknown:
@@ -252,7 +252,7 @@ def check(model: Model, run: Run) -> None:
             'an announce does not cancel a pending withdraw of the same prefix, so withdraws must all be emitted before announces (and a refresh before both)',
         )
 
-    run.rule('C04.R4', 'every queue read by updates() is detached before the first yield (local alias + fresh container) and never touched through self afterwards: nothing shared is iterated across a suspension point', floor=6)
+    run.rule('C04.R4', 'every queue read by updates() is detached before the first yield (local alias + fresh container) and never touched through self afterwards: nothing shared is iterated across a suspension point', floor=3)
     first = yields[0]
     fnode = cfg.stmt_node_containing(first)
     for q in QUEUES:
@@ -332,7 +332,7 @@ def check(model: Model, run: Run) -> None:
     run.check(len(cvars) == 1, ic.qualname, 'looked up in self._seen by route.index()', ic.loc(), 'lookup key must be the route index')
 
     # ------------------------------------------------------------------ R7 add_to_rib
-    run.rule('C04.R7', 'add_to_rib queues unless the identical route is cached and force is false; del_from_rib hands the route\'s own nlri/attributes/index to the shared removal', floor=2)
+    run.rule('C04.R7', 'add_to_rib queues unless the identical route is cached and force is false; del_from_rib hands the route\'s own nlri/attributes/index to the shared removal', floor=1)
     a = model.func(RIB + '.add_to_rib')
     run.analysed(a)
     calls = model.calls_to(a.module, a.node, 'OutgoingRIB._update_rib')
